@@ -17,6 +17,7 @@ Sequences as the translator `translators/rs2lean.py` uses them (second support l
   writes them out as two `let`s;
 * `Result<usize, usize>` (the result of `slice::binary_search`) is `Except Int Int`
   (`Err(i)` ↦ `.error i`, `Ok(i)` ↦ `.ok i`); `slice::get(i)` is `seqGet`;
+* `Iterator::min()` over `Option<NaiveDate>` items is `iterMinOptDate` (sixth increment, `next_change_hint`);
 * `Ord::cmp` on a generic `T: Ord` is `compare` of an `[Ord T]` parameter about which nothing is assumed.
 
 Library calls whose code is NOT translated (`sort_unstable_by`, `sort_unstable`, `dedup`,
@@ -65,5 +66,17 @@ def resEither {α : Type} : Except α α → α
 
 /-- `Vec::pop`: the last element and the rest -/
 def seqPop {α : Type} (v : List α) : Option α × List α := (v.getLast?, v.dropLast)
+
+/-- `a > b` for `Option<NaiveDate>` (derived `Ord` on `Option`: `None` is less than every `Some(_)`; dates by day number) -/
+def optDateGt : Option Int → Option Int → Bool
+  | none, _ => false
+  | some _, none => true
+  | some a, some b => decide (a > b)
+
+/-- `Iterator::min()` for `Item = Option<NaiveDate>`: std's `reduce(|a, b| min_by(a, b, Ord::cmp))`, where `min_by(a, b)`
+is `b` when `a.cmp(&b) == Greater` and `a` otherwise; `None` for an empty iterator -/
+def iterMinOptDate : List (Option Int) → Option (Option Int)
+  | [] => none
+  | x :: xs => some (xs.foldl (fun acc y => if optDateGt acc y then y else acc) x)
 
 end OH.Model.RustInt
